@@ -34,7 +34,12 @@ use tokio::io::{AsyncReadExt, AsyncWriteExt};
 use tower::ServiceExt;
 
 type BoxError = Box<dyn std::error::Error + Send + Sync + 'static>;
+/// generous: a request that has not finished after this long is reported as HANG
 const HANG_AFTER: Duration = Duration::from_secs(30);
+/// once a hang has been confirmed (seen twice) in this process, or seen in an earlier wave of the same case, later
+/// waits are cut short: the verdict is already a violation, only the cost of collecting it is bounded
+const HANG_AFTER_CONFIRMED: Duration = Duration::from_secs(3);
+static HANG_CONFIRMED: std::sync::atomic::AtomicBool = std::sync::atomic::AtomicBool::new(false);
 
 // ------------------------------------------------------------------------------------ digests
 const FNV0: u64 = 0xcbf29ce484222325;
@@ -631,6 +636,8 @@ async fn exchange(send: Sender, spec: Spec, auth: String, payload: Vec<u8>) -> R
         Some(i) => (String::from_utf8_lossy(&data[..i]).to_string(), &data[i + 1..]),
         None => (String::from_utf8_lossy(&data).to_string(), &data[data.len()..]),
     };
+    // keep the report on one line whatever arrived
+    let line: String = line.chars().map(|c| if ('!'..='~').contains(&c) && c != '|' && c != '~' && c != '^' { c } else { '?' }).collect();
     let cut = line.rfind("&bl=").unwrap_or(line.len());
     // the body digest is computed over the bytes actually received, never taken from the line
     let line = format!("{}&bl={}&bh={}", &line[..cut], rest.len(), fnv(FNV0, rest));
@@ -677,7 +684,9 @@ async fn run_case(line: String) -> String {
     let mut results: HashMap<u64, Out> = HashMap::new();
     let mut sent: HashMap<u64, (usize, u64)> = HashMap::new();
     let nwaves = specs.iter().map(|s| s.wave).max().unwrap_or(0) + 1;
+    let mut hang_seen = HANG_CONFIRMED.load(Ordering::SeqCst);
     for w in 0..nwaves {
+        let limit = if hang_seen { HANG_AFTER_CONFIRMED } else { HANG_AFTER };
         let mut hs = Vec::new();
         for s in specs.iter().filter(|s| s.wave == w) {
             let payload = gen_body(s.id, s.blen, s.bseed);
@@ -687,7 +696,7 @@ async fn run_case(line: String) -> String {
             hs.push((
                 s.id,
                 tokio::spawn(async move {
-                    match tokio::time::timeout(HANG_AFTER, fut).await {
+                    match tokio::time::timeout(limit, fut).await {
                         Err(_) => Out::Hang,
                         Ok(None) => Out::Cancelled,
                         Ok(Some(Ok((st, h, l)))) => Out::Ok(st, h, l),
@@ -697,7 +706,9 @@ async fn run_case(line: String) -> String {
             ));
         }
         for (id, h) in hs {
-            results.insert(id, h.await.unwrap_or(Out::Panic));
+            let o = h.await.unwrap_or(Out::Panic);
+            hang_seen = hang_seen || matches!(o, Out::Hang);
+            results.insert(id, o);
         }
         pause(cfg.settle).await;
     }
@@ -758,6 +769,9 @@ fn main() {
         // a hang is only believed when it shows up twice
         if s.contains("|HANG|") {
             s = run_once(&line);
+            if s.contains("|HANG|") {
+                HANG_CONFIRMED.store(true, Ordering::SeqCst);
+            }
         }
         emit(&mut w, &s);
         use std::io::Write;
